@@ -83,6 +83,49 @@ m("c07-grow-adds-max-size", MM,
 """            self.inner.semaphore.add_permits(additional - settled);""",
 """            self.inner.semaphore.add_permits(slots.max_size - settled);""", ["C07"])
 
+UM='src/unmanaged/mod.rs'
+m("c10-nonblocking-from-secs", MM,
+"""            Some(t) => t.as_nanos() == 0,""",
+"""            Some(t) => t.as_secs() == 0,""", ["C10"])
+m("c10-recycle-timeout-kept", MM,
+"""        .await
+        .is_err()
+        {
+            return Ok(None);
+        }""",
+"""        .await
+        .is_err_and(|e| !matches!(e, PoolError::Timeout(_)))
+        {
+            return Ok(None);
+        }""", ["C10","C04"])
+m("c10-unmanaged-timeout-zero-blocks", UM,
+"""            (Some(timeout), _) if timeout.as_nanos() == 0 => {""",
+"""            (Some(timeout), None) if timeout.as_nanos() == 0 => {""", ["C10"])
+m("c05-permit-before-push", UM,
+"""        {
+            let mut queue = self.inner.queue.lock().unwrap();
+            queue.push(object);
+        }
+        let _ = self.inner.available.fetch_add(1, Ordering::Relaxed);
+        self.inner.semaphore.add_permits(1);""",
+"""        self.inner.semaphore.add_permits(1);
+        {
+            let mut queue = self.inner.queue.lock().unwrap();
+            queue.push(object);
+        }
+        let _ = self.inner.available.fetch_add(1, Ordering::Relaxed);""", ["C05","C12"])
+m("c12-clear-before-close", UM,
+"""        self.inner.semaphore.close();
+        self.inner.size_semaphore.close();
+        self.inner.clear();""",
+"""        self.inner.clear();
+        self.inner.semaphore.close();
+        self.inner.size_semaphore.close();""", ["C12"])
+m("c05-take-keeps-size-slot", UM,
+"""            let _ = pool.size.fetch_sub(1, Ordering::Relaxed);
+            pool.size_semaphore.add_permits(1);""",
+"""            let _ = pool.size.fetch_sub(1, Ordering::Relaxed);""", ["C05"])
+
 def run(cmd, **kw):
     return subprocess.run(cmd, shell=True, capture_output=True, text=True, **kw)
 
